@@ -108,6 +108,16 @@ fn main() {
         eprintln!("usage: tsharness <64|32|typed> <profile> <seed> <histories> <steps> <trace-file|-> [mode] [minalign]");
         std::process::exit(2);
     }
+    if args[2] == "deep" {
+        // tsharness <64|32> deep <c> <stack_kb> - - -
+        let c: usize = args[3].parse().unwrap();
+        let kb: usize = args[4].parse().unwrap();
+        let ok = match args[1].as_str() {
+            "64" => scenarios::deep_regrow::<tinyset::SetU64>(c, kb),
+            _ => scenarios::deep_regrow::<tinyset::SetU32>(c, kb),
+        };
+        std::process::exit(if ok { 0 } else { 1 });
+    }
     let rc = match args[1].as_str() {
         "64" => run::<tinyset::SetU64>(&args),
         "32" => run::<tinyset::SetU32>(&args),
